@@ -1,4 +1,5 @@
 import HypatiaModel.ConcurrencyReads
+import HypatiaModel.ConcurrencyFacetReads
 import Driver.Concurrency
 import Driver.Sess
 namespace Driver.ReadsS
@@ -55,6 +56,29 @@ def prov (st : St) (what : String) (a : Nat) : Option Prov :=
       | none => none
   | _ => none
 
+/-- arguments of `read prov ccounts a` (the same derivation as `props/c18.py: counts_args`):
+docids `a % 8, (a / 3) % 8, a % 8, 97` (a repeated and an unknown id), omit list by `a % 4`:
+none / `a:b` / `d` / `a:b:c, f`; `include_facets` = configured facets minus the omit paths' prefixes -/
+def countsArgs (a : Nat) : List Int × List Int :=
+  let ds : List Int := [Int.ofNat (a % 8), Int.ofNat ((a / 3) % 8), Int.ofNat (a % 8), 97]
+  let om : List Nat := match a % 4 with
+    | 0 => []
+    | 1 => [1]
+    | 2 => [3]
+    | _ => [2, 5]
+  let eff := om.foldl (fun acc j => (facetPrefixes j).foldl LSet.insert acc) []
+  (ds, LSet.diff allFacets eff)
+
+/-- `FacetIndex.counts` on the object-level heap: the dictionary (sorted by facet number), provided
+the call logged no write and left the heap's posting objects alone -/
+def countsRead (st : St) (a : Nat) : String :=
+  let args := countsArgs a
+  let r := st.x.c.facetCounts args.2 args.1
+  if r.1.writes.length = st.x.c.writes.length ∧ r.1.next = st.x.c.next then
+    let keys := sortInts (r.2.map (·.1))
+    "prov fresh counts=" ++ ",".intercalate (keys.map (fun k => s!"{k}:{(AMap.get r.2 k).getD 0}"))
+  else "prov WROTE"
+
 def step (st : St) (toks : List String) : St × String :=
   match toks with
   | ["cfg", "cutoff", n] => match n.toNat? with | some n => ({ st with cutoff := n }, "ok") | none => (st, "bad-op")
@@ -65,6 +89,10 @@ def step (st : St) (toks : List String) : St × String :=
     | some x => ({ st with x := x }, "ok")
     | none => (st, "bad-op")
   | ["read"] => (st, "unchanged")
+  | ["read", "prov", "ccounts", a] =>
+    match a.toNat? with
+    | none => (st, "bad-op")
+    | some a => (st, countsRead st a)
   | ["read", "prov", what, a] =>
     match a.toNat? with
     | none => (st, "bad-op")
